@@ -50,20 +50,21 @@ theorem classes_documented :
     the documented one -/
 theorem rules_documented : Gen.lexRules = docRules := by decide
 
-/-- the struct tags of definition.go are the grammar the parser model implements -/
+/-- the struct tags of definition.go are the grammar the parser model implements (types sorted by name — the order in
+    which the struct types are declared means nothing to participle —, fields of one type in source order) -/
 theorem grammar_documented : Gen.grammarTags = [
-    ("BindParameterValue.Literal", "@Ident"),
-    ("BindParameterValue.Regex", "| '/' @Regex '/'"),
     ("BindParameter.Ident", "@Ident ':' ' '*"),
     ("BindParameter.Value", "@@"),
+    ("BindParameterValue.Literal", "@Ident"),
+    ("BindParameterValue.Regex", "| '/' @Regex '/'"),
     ("BindParameters.Parameters", "( @@ ( ',' ' '* @@ )* )+"),
-    ("SegmentElement.Ident", "@Ident"),
-    ("SegmentElement.BindIdent", "| '{' @Ident '}'"),
-    ("SegmentElement.BindParameters", "| '{' @@ '}'"),
+    ("Route.Segments", "@@+"),
     ("Segment.Slash", "'/'"),
     ("Segment.Optional", "@'?'?"),
     ("Segment.Elements", "@@*"),
-    ("Route.Segments", "@@+")] := by decide
+    ("SegmentElement.Ident", "@Ident"),
+    ("SegmentElement.BindIdent", "| '{' @Ident '}'"),
+    ("SegmentElement.BindParameters", "| '{' @@ '}'")] := by decide
 
 /-- lookahead 2 and no elided token type (`Whitespace` tokens reach the parser) -/
 theorem options_documented : Gen.parserOptions = ["Lexer(l)", "UseLookahead(2)"] := by decide
